@@ -278,9 +278,12 @@ Definition add_pkg (descs : list (name * dval)) (n : name) : list (name * dval) 
 Definition path_files (bp : list (name * list (nat * file))) (p : name) : list (nat * file) :=
   match aget name_eqb bp p with Some l => l | None => [] end.
 
+(* lazy creation of the maps: descsByName = {"": &packageDescriptor{}} when it is nil *)
+Definition norm_descs (d : list (name * dval)) : list (name * dval) :=
+  match d with [] => [([], VPkg [])] | _ :: _ => d end.
+
 Definition register_file (s : fstate) (fid : nat) (f : file) : fstate * rres :=
-  (* lazy creation of the maps: descsByName = {"": &packageDescriptor{}} *)
-  let descs0 := match fs_descs s with [] => [([], VPkg [])] | d => d end in
+  let descs0 := norm_descs (fs_descs s) in
   let s0 := FState descs0 (fs_bypath s) (fs_num s) in
   if negb (is_nil (path_files (fs_bypath s) (f_path f))) then (s0, RErrPath) else
   match chain (f_pkg f) with
@@ -388,15 +391,16 @@ Definition fstate_after (ops : list fop) : fstate := fold_left (fun s op => fst 
 Definition regs := list (nat * file).
 
 Definition fregs_step (st : fstate * regs) (op : fop) : fstate * regs :=
-  let s' := fst (fstep (fst st) op) in
-  match op with
-  | FReg fid f => match snd (register_file (fst st) fid f) with
-                  | ROk => (s', snd st ++ [(fid, f)])
-                  | _ => (s', snd st)
-                  end
-  | _ => (s', snd st)
-  end.
-Definition registered (ops : list fop) : regs := snd (fold_left fregs_step ops (fs_init, [])).
+  (fst (fstep (fst st) op),
+   match op with
+   | FReg fid f => match snd (register_file (fst st) fid f) with
+                   | ROk => snd st ++ [(fid, f)]
+                   | _ => snd st
+                   end
+   | _ => snd st
+   end).
+Definition fregs_run (ops : list fop) : fstate * regs := fold_left fregs_step ops (fs_init, []).
+Definition registered (ops : list fop) : regs := snd (fregs_run ops).
 
 (* abstraction function from the concrete state (a set: order = filesByPath order) *)
 Definition abs_files (s : fstate) : regs := flat_map snd (fs_bypath s).
@@ -567,12 +571,13 @@ Definition tent_of (op : top) : option tent :=
   end.
 
 Definition tregs_step (st : tstate * list tent) (op : top) : tstate * list tent :=
-  let (s', o) := tstep (fst st) op in
-  match tent_of op, o with
-  | Some e, TORes TOk => (s', snd st ++ [e])
-  | _, _ => (s', snd st)
-  end.
-Definition tregistered (ops : list top) : list tent := snd (fold_left tregs_step ops (ts_init, [])).
+  (fst (tstep (fst st) op),
+   match tent_of op, snd (tstep (fst st) op) with
+   | Some e, TORes TOk => snd st ++ [e]
+   | _, _ => snd st
+   end).
+Definition tregs_run (ops : list top) : tstate * list tent := fold_left tregs_step ops (ts_init, []).
+Definition tregistered (ops : list top) : list tent := snd (tregs_run ops).
 
 (* abstraction function: the registered types are exactly the entries of typesByName, the
    extension data is recovered from extensionsByMessage *)
